@@ -302,6 +302,67 @@ pub fn resolve_array_conflict() {
 
 /// C06 with nested flattened arrays: element x of the outer array owns an inner array. Replica a removes x (with its
 /// inner array and elements), replica b concurrently edits x and inserts a new element into the inner array.
+const CHAIN: [&[&str]; 5] = [&["a", "b", "n"], &["b", "n"], &["a", "n"], &["b"], &["n", "a", "b"]];
+
+/// params: []. Each replica submits two versions of the array in a row (chosen among 5, its own new element n = p / q)
+/// and commits; exchange; every surviving element appears exactly once on both replicas, also after an edit + commit
+/// (automatic resolution) and its propagation. Covers concurrent leaves whose last edit scripts are byte-identical.
+pub fn edit_chains() {
+    let (mut a, mut b) = base_pair(doc_with(&["a", "b"], &["x".to_string(), "x".to_string()], "t"));
+    let mk = |o: &[&str], n: &str| -> Map<String, Value> {
+        let ids: Vec<&str> = o.iter().map(|x| if *x == "n" { n } else { *x }).collect();
+        let vals: Vec<String> = ids.iter().map(|_| "x".to_string()).collect();
+        doc_with(&ids, &vals, "t")
+    };
+    let (a1, a2) = (CHAIN[sym::choose(5)], CHAIN[sym::choose(5)]);
+    let (b1, b2) = (CHAIN[sym::choose(5)], CHAIN[sym::choose(5)]);
+    a.m.update(mk(a1, "p")).unwrap();
+    a.m.update(mk(a2, "p")).unwrap();
+    a.m.commit(None).unwrap();
+    b.m.update(mk(b1, "q")).unwrap();
+    b.m.update(mk(b2, "q")).unwrap();
+    b.m.commit(None).unwrap();
+    let a0 = a.snapshot();
+    a.pull(&b);
+    b.pull(&a0);
+    let check = |d: &Map<String, Value>| {
+        let items = ids_of(d, "items♭");
+        for x in ["a", "b", "p", "q"] {
+            let in_a = a2.iter().any(|y| if *y == "n" { x == "p" } else { *y == x });
+            let in_b = b2.iter().any(|y| if *y == "n" { x == "q" } else { *y == x });
+            let alive = if x == "a" || x == "b" { in_a && in_b } else { in_a || in_b };
+            let count = items.iter().filter(|y| *y == x).count();
+            // a base element dropped by the first version and submitted again by the second is a re-creation on top of the
+            // deletion: it may legitimately outlive the other replica's deletion (longer history wins)
+            let back = (x == "a" || x == "b") && ((in_a && !a1.iter().any(|y| *y == x)) || (in_b && !b1.iter().any(|y| *y == x)));
+            if back {
+                assert!(count <= 1, "an element appears twice after chains of edits");
+            } else if alive {
+                assert!(count == 1, "a surviving element does not appear exactly once after chains of edits");
+            } else {
+                assert!(count == 0, "a deleted element appears after chains of edits");
+            }
+        }
+    };
+    let da = a.m.read(None).expect("read a");
+    let db = b.m.read(None).expect("read b");
+    check(&da);
+    assert!(da == db, "replicas holding the same blocks read different documents");
+    assert!(a.reopen().read(None).expect("read reopened") == da, "reopened replica reads a different document");
+    // an unrelated edit + commit resolves the array automatically
+    let mut d = da.clone();
+    d.insert("x".to_string(), Value::from(1));
+    a.m.update(d).unwrap();
+    a.m.commit(None).unwrap();
+    let da2 = a.m.read(None).expect("read a");
+    check(&da2);
+    b.pull(&a);
+    let db2 = b.m.read(None).expect("read b");
+    check(&db2);
+    assert!(da2 == db2, "replicas differ after the automatic resolution was propagated");
+    sym::reach(1);
+}
+
 pub fn nested_arrays() {
     let base = obj(json!({"outer♭": [{"_id": "x", "name": "n", "kids♭": [{"_id": "k1", "v": "x"}]}, {"_id": "y", "name": "m"}]}));
     let (mut a, mut b) = base_pair(base);
